@@ -7,6 +7,7 @@ import Bng.Model.KeySpec
     stLease    state.Store leases, sessions  (pkg/state/store.go)          leases / leaseByMAC / leaseByIP,
                                                                           sessions / sessionByMAC / sessionByIP
     stSub      state.Store subscribers       (pkg/state/store.go)          subscribers / subscriberByMAC / subscriberByNTE
+    stNat      state.Store NAT bindings      (pkg/state/store.go)          natBindings / natByPrivate / natByPublic
     memstore   allocator.MemoryAllocationStore (pkg/allocator/store.go)    byPool[pool][sub] / byIP
 
   A primary record carries its secondary key values (two slots: slot 0 = MAC, slot 1 = IP address, or NTE id for
@@ -25,7 +26,10 @@ import Bng.Model.KeySpec
       (`condDelete = false`; `true` is the repaired behaviour, used by none of the three);
     * lookup by key: index, then primary map; an entry whose primary is gone is observed as `dangling`
       (Manager returns (nil, true), state.Store returns (nil, nil)); MemoryAllocationStore.byIP holds a COPY of the
-      record (`copyIdx`), so a stale entry still answers with the record as it was saved.
+      record (`copyIdx`), so a stale entry still answers with the record as it was saved;
+    * load: MemoryAllocationStore.UnmarshalJSON throws every map away and rebuilds them from the stored list IN LIST
+      ORDER, overwriting byPool / byIP entry by entry with NO uniqueness check (`load`; the order is the JSON array's,
+      i.e. a parameter of the operation, not Go map order).
 
   Not modelled: IPv6 keys (Lease.IPv6 / Session.IPv6 share the IP index; the harness leaves them nil), capacity limits
   (configured far above the driven sizes), timestamps, the expiry sweeps (same by-value deletion as Delete*).
@@ -72,6 +76,8 @@ inductive Op where
   | get (id : Nat)
   | byKey (slot : Bool) (v : Nat)
   | list
+  /-- replace the whole table by the stored records, in list order (MemoryAllocationStore.UnmarshalJSON) -/
+  | load (l : List (Nat × Rec))
   deriving Repr, DecidableEq
 
 structure Cfg where
@@ -96,10 +102,22 @@ def submgrAccepts : Op → Bool
   | .create _ _ _ => false
   | .update _ _ _ => false
   | .setKey _ slot _ => slot
+  | .load _ => false
   | _ => true
 
 def storeAccepts : Op → Bool
   | .setKey _ _ _ => false
+  | .load _ => false
+  | _ => true
+
+/-- NAT bindings: both endpoints always present, no update, no listing -/
+def natAccepts : Op → Bool
+  | .create _ (some _) (some _) => true
+  | .create _ _ _ => false
+  | .update _ _ _ => false
+  | .setKey _ _ _ => false
+  | .list => false
+  | .load _ => false
   | _ => true
 
 def memAccepts : Op → Bool
@@ -108,6 +126,7 @@ def memAccepts : Op → Bool
   | .update _ _ _ => false
   | .setKey _ _ _ => false
   | .byKey slot _ => slot
+  | .load l => l.all fun e => e.2.k0 == none && e.2.k1 != none
   | _ => true
 
 /-- subscriber.Manager -/
@@ -124,6 +143,11 @@ def stLease : Cfg :=
 def stSub : Cfg :=
   { dup0 := .overwrite, dup1 := .overwrite, upd := .reindex, condDelete := false,
     deleteMissingOk := false, copyIdx := false, accepts := storeAccepts }
+
+/-- state.Store NAT bindings (slot 0 = private endpoint, slot 1 = public endpoint) -/
+def stNat : Cfg :=
+  { dup0 := .overwrite, dup1 := .overwrite, upd := .primaryOnly, condDelete := false,
+    deleteMissingOk := false, copyIdx := false, accepts := natAccepts }
 
 /-- allocator.MemoryAllocationStore (slot 1 = byIP; slot 0 unused) -/
 def memstore : Cfg :=
@@ -179,14 +203,20 @@ def idxDrop (cond : Bool) (i : AMap Nat Nat) (k : Option Nat) (id : Nat) : AMap 
   | none => i
   | some v => if cond && AMap.lookup i v != some id then i else AMap.erase i v
 
+/-- store record `e.2` under primary id `e.1` and point the indexes of its keys at it — no check of any kind -/
+def putRaw (st : State) (e : Nat × Rec) : State :=
+  { prim := AMap.insert st.prim e.1 e.2,
+    i0 := idxPut st.i0 e.2.k0 e.1,
+    i1 := idxPut st.i1 e.2.k1 e.1,
+    next := if st.next ≤ e.1 then e.1 + 1 else st.next }
+
 def create (c : Cfg) (st : State) (id? : Option Nat) (k0 k1 : Option Nat) : State × Obs :=
   if dupBlocks c.dup0 st.i0 k0 id? || dupBlocks c.dup1 st.i1 k1 id? then (st, .conflict)
-  else
-    ({ prim := AMap.insert st.prim (id?.getD st.next) ⟨k0, k1⟩,
-       i0 := idxPut st.i0 k0 (id?.getD st.next),
-       i1 := idxPut st.i1 k1 (id?.getD st.next),
-       next := if st.next ≤ id?.getD st.next then id?.getD st.next + 1 else st.next },
-     .okId (id?.getD st.next))
+  else (putRaw st (id?.getD st.next, ⟨k0, k1⟩), .okId (id?.getD st.next))
+
+/-- UnmarshalJSON: start from empty maps and `putRaw` the stored records one after the other -/
+def load (st : State) (l : List (Nat × Rec)) : State × Obs :=
+  (l.foldl putRaw { next := st.next }, .ok)
 
 /-- the index of one slot after an `Upd.reindex` update from record `old` to key `k` -/
 def reindexSlot (cond : Bool) (i : AMap Nat Nat) (old k : Option Nat) (id : Nat) : AMap Nat Nat :=
@@ -249,6 +279,7 @@ def step (c : Cfg) (st : State) (op : Op) : State × Obs :=
   | .get id => (st, get st id)
   | .byKey slot v => (st, byKey c st slot v)
   | .list => (st, .ids (sortNats (AMap.keys st.prim)))
+  | .load l => load st l
 
 def run (c : Cfg) (st : State) (ops : List Op) : State := ops.foldl (fun s op => (step c s op).1) st
 
@@ -290,6 +321,12 @@ inductive Ev where
   | got (id : Nat) (r : Option (Nat × Rec))
   | byKey (slot : Bool) (v : Nat) (r : Look)
   | listed (ids : List Nat)
+  /-- a bulk load answered ok: the table now holds exactly these records, written in this order -/
+  | loaded (l : List (Nat × Rec))
+  /-- the final audit of a concurrent workload that is clean by construction (no key shared, no re-keying): every
+      live primary with its keys, every lookup by key over the universe, and the numbers of in-goroutine checks
+      that failed (`anomalies`) and of generated ids that were handed out twice (`dupids`) -/
+  | audit (live : List (Nat × Rec)) (looks : List (Bool × Nat × Look)) (anomalies dupids : Nat)
   | nop
   deriving Repr
 
@@ -356,16 +393,54 @@ def frameName (m : Mon) (slot : Bool) (v : Nat) : String :=
   | some r => if r.key slot == some v then "release-frame" else "fwd-rev"
   | none => "fwd-rev"
 
+def checkPut (m : Mon) (id : Nat) (r : Rec) : Mon × List V :=
+  let old := (AMap.lookup m.live id).getD {}
+  let wasLive := (AMap.lookup m.live id).isSome
+  let (v0, s0) := claim m.live id false r.k0
+  let (v1, s1) := claim m.live id true r.k1
+  let live := AMap.insert m.live id r
+  ({ live := live, shared := purge live (m.shared ++ s0 ++ s1),
+     moved := m.moved ++ (if wasLive then rekeys id false old.k0 r.k0 ++ rekeys id true old.k1 r.k1 else []),
+     lastDel := none }, v0 ++ v1)
+
+/-- the final table of a clean-by-construction workload must be an exact bijection -/
+def auditVerdicts (live : List (Nat × Rec)) (looks : List (Bool × Nat × Look)) (anomalies dupids : Nat) : List V :=
+  (if (live.map (·.1)).Nodup then [] else
+    [{ name := "id-unique", detail := "the final listing names one primary id twice" }]) ++
+  (live.flatMap fun p => [false, true].flatMap fun s =>
+    match p.2.key s with
+    | none => []
+    | some v =>
+      (if (live.filter fun q => q.2.key s == some v).length > 1 then
+        [{ name := "dup-key", detail := s!"{slotName s} key {v} is carried by two live primaries", key := some (s, v) }]
+       else []) ++
+      (match looks.find? (fun l => l.1 == s && l.2.1 == v) with
+       | some (_, _, .found id r) =>
+         if id == p.1 && r == p.2 then [] else
+           [{ name := "fwd-rev", detail := s!"{slotName s} key {v} of live primary {p.1} resolves to primary {id}",
+              key := some (s, v) }]
+       | _ => [{ name := "fwd-rev", detail := s!"live primary {p.1} is not found by its {slotName s} key {v}",
+                 key := some (s, v) }])) ++
+  (looks.flatMap fun l =>
+    match l.2.2 with
+    | .none => []
+    | .dangling => [{ name := "fwd-rev", detail := s!"the index entry of {slotName l.1} key {l.2.1} points to no primary",
+                      key := some (l.1, l.2.1) }]
+    | .found id r =>
+      if live.any (fun q => q.1 == id && q.2 == r) && r.key l.1 == some l.2.1 then [] else
+        [{ name := "fwd-rev",
+           detail := s!"the index entry of {slotName l.1} key {l.2.1} points to primary {id}, which is not live with that key",
+           key := some (l.1, l.2.1) }]) ++
+  (if dupids = 0 then [] else
+    [{ name := "id-unique", detail := s!"{dupids} generated primary ids were handed out twice" }]) ++
+  (if anomalies = 0 then [] else
+    [{ name := "fwd-rev", detail := s!"{anomalies} lookups inside the concurrent workload disagreed with what the caller stored" }])
+
 def check (m : Mon) : Ev → Mon × List V
-  | .put id r =>
-    let old := (AMap.lookup m.live id).getD {}
-    let wasLive := (AMap.lookup m.live id).isSome
-    let (v0, s0) := claim m.live id false r.k0
-    let (v1, s1) := claim m.live id true r.k1
-    let live := AMap.insert m.live id r
-    ({ live := live, shared := purge live (m.shared ++ s0 ++ s1),
-       moved := m.moved ++ (if wasLive then rekeys id false old.k0 r.k0 ++ rekeys id true old.k1 r.k1 else []),
-       lastDel := none }, v0 ++ v1)
+  | .put id r => checkPut m id r
+  | .loaded l =>
+    l.foldl (fun acc e => ((checkPut acc.1 e.1 e.2).1, acc.2 ++ (checkPut acc.1 e.1 e.2).2)) ({}, [])
+  | .audit live looks anomalies dupids => (m, auditVerdicts live looks anomalies dupids)
   | .setKey id slot v =>
     match AMap.lookup m.live id with
     | none => (m, [{ name := "fwd-rev", detail := s!"a key was assigned to primary {id}, which is not live" }])
@@ -444,7 +519,13 @@ def exclD59Dup (c : Cfg) (op : Op) (slot : Bool) : Bool :=
   | .create _ _ _ => c.dup slot == .overwrite
   | .update _ _ _ => true
   | .setKey _ _ _ => true
+  | .load _ => true
   | _ => false
+
+/-- a further dup-key on a key whose index entry was ALREADY overwritten by a second live claimant (and is still carried
+    by somebody): a uniqueness check that consults the index (SaveAllocation) is fooled by the overwritten entry -/
+def exclD59Again (m : Mon) (slot : Bool) (v : Nat) : Bool :=
+  m.shared.any fun e => e.slot == slot && e.key == v
 
 def movedAt (m : Mon) (slot : Bool) (v : Nat) (p : Nat → Bool) : Bool :=
   m.moved.any fun e => e.1 == slot && e.2.1 == v && p e.2.2
@@ -466,8 +547,11 @@ def clauseOf (c : Cfg) (m : Mon) (op : Op) (ev : Ev) (v : V) : String :=
     if exclD59 m slot key r then "D59"
     else if exclRekey m slot key r then "KF-index-rekey"
     else "none"
-  | .put _ _, some (slot, _) => if v.name == "dup-key" && exclD59Dup c op slot then "D59" else "none"
-  | .setKey _ _ _, some (slot, _) => if v.name == "dup-key" && exclD59Dup c op slot then "D59" else "none"
+  | .put _ _, some (slot, key) =>
+    if v.name == "dup-key" && (exclD59Dup c op slot || exclD59Again m slot key) then "D59" else "none"
+  | .setKey _ _ _, some (slot, key) =>
+    if v.name == "dup-key" && (exclD59Dup c op slot || exclD59Again m slot key) then "D59" else "none"
+  | .loaded _, some (slot, _) => if v.name == "dup-key" && exclD59Dup c op slot then "D59" else "none"
   | .refused _ r, _ => if exclRekeyRefused m r then "KF-index-rekey" else "none"
   | _, _ => "none"
 
